@@ -68,4 +68,52 @@ func peekReaderWF(r *peekReader) bool {
 //@ ensures seacsGrow(info, name)
 //@ loop 1 invariant len(cmdStack) <= 10 && len(stack) <= 25 && seacsGrow(info, name)
 //@ loop 2 invariant len(cmdStack) <= 10 && len(stack) <= 25 && seacsGrow(info, name)
+//@ loop 2 back-when [C20.dec.number] prev(len(code)) >= 1 && prev(code[0]) >= 32 ==> len(stack) == prev(len(stack)) + 1 && stack[len(stack)-1] == float64(specT1Int(prev(code), 0)) && len(code) == prev(len(code)) - specT1Len(prev(code), 0) && ref(code) == prev(ref(code)) && off(code) == prev(off(code)) + specT1Len(prev(code), 0)
+//@ loop 2 back-when [C20.dec.number.frame] prev(len(code)) >= 1 && prev(code[0]) >= 32 ==> forall k :: 0 <= k && k < prev(len(stack)) ==> stack[k] == prev(stack[k])
 //@ loop 3 invariant 0 <= i && len(stack) >= argN - i && len(stack) <= 25 && seacsGrow(info, name)
+
+// ---------------------------------------------------------------------
+// C20: charstring numbers.  specT1Int / specT1Len are the number formats of
+// the Adobe Type 1 Font Format book (section 6.2) written as a decoder.
+
+func specT1Len(b []byte, i int) int {
+	op := b[i]
+	switch {
+	case op >= 32 && op <= 246:
+		return 1
+	case op >= 247 && op <= 254:
+		return 2
+	case op == 255:
+		return 5
+	}
+	return 0
+}
+
+func specT1Int(b []byte, i int) int32 {
+	op := int32(b[i])
+	switch {
+	case op >= 32 && op <= 246:
+		return op - 139
+	case op >= 247 && op <= 250:
+		return (op-247)*256 + int32(b[i+1]) + 108
+	case op >= 251 && op <= 254:
+		return -(op-251)*256 - int32(b[i+1]) - 108
+	case op == 255:
+		return int32(uint32(b[i+1])*16777216 + uint32(b[i+2])*65536 + uint32(b[i+3])*256 + uint32(b[i+4]))
+	}
+	return 0
+}
+
+//@ func appendInt
+//@ safety C10
+//@ ensures [C20.int.roundtrip] specT1Int(result, len(buf)) == x
+//@ ensures [C20.int.length] len(result) == len(buf) + specT1Len(result, len(buf))
+//@ ensures [C20.int.form1] (-107 <= x && x <= 107) == (specT1Len(result, len(buf)) == 1)
+//@ ensures [C20.int.form2] ((108 <= x && x <= 1131) || (-1131 <= x && x <= -108)) == (specT1Len(result, len(buf)) == 2)
+//@ ensures [C20.int.form5] (x < -1131 || x > 1131) == (specT1Len(result, len(buf)) == 5)
+//@ ensures [C20.int.prefix] forall k :: 0 <= k && k < len(buf) ==> result[k] == buf[k]
+
+//@ func appendOp
+//@ safety C10
+//@ ensures [C20.op] (op < 256 ==> len(result) == len(buf) + 1 && result[len(buf)] == byte(op)) && (op >= 256 ==> len(result) == len(buf) + 2 && result[len(buf)] == byte(op >> 8) && result[len(buf)+1] == byte(op))
+//@ ensures [C20.op.prefix] forall k :: 0 <= k && k < len(buf) ==> result[k] == buf[k]
